@@ -73,6 +73,31 @@ pub static RELOCATED: std::sync::atomic::AtomicBool = std::sync::atomic::AtomicB
 pub static QUIET_LOADS: std::sync::atomic::AtomicBool = std::sync::atomic::AtomicBool::new(false);
 pub static FREE_RUN: std::sync::atomic::AtomicUsize = std::sync::atomic::AtomicUsize::new(usize::MAX);
 pub static FREE_UNTIL: Mutex<Option<std::time::Instant>> = Mutex::new(None);
+/// `reenter k`: the k-th call of the wrapped iterator's `next()` queries the concurrent iterator that wraps it
+pub static REENTER_AT: std::sync::atomic::AtomicUsize = std::sync::atomic::AtomicUsize::new(usize::MAX);
+static REENTER_FN: Mutex<Option<(usize, fn(usize))>> = Mutex::new(None);
+
+pub fn set_reenter(at: Option<usize>, data: usize, f: fn(usize)) {
+    REENTER_AT.store(at.unwrap_or(usize::MAX), Ordering::Relaxed);
+    *REENTER_FN.lock().unwrap_or_else(|e| e.into_inner()) = Some((data, f));
+}
+
+pub fn clear_reenter() {
+    REENTER_AT.store(usize::MAX, Ordering::Relaxed);
+    *REENTER_FN.lock().unwrap_or_else(|e| e.into_inner()) = None;
+}
+
+/// called by the probe from inside its `next()`
+pub fn reenter(call_no: usize) {
+    if REENTER_AT.load(Ordering::Relaxed) != call_no || tid() == NO_TID || silent() {
+        return;
+    }
+    let h = *REENTER_FN.lock().unwrap_or_else(|e| e.into_inner());
+    if let Some((d, f)) = h {
+        f(d);
+    }
+}
+
 pub static RAWSKIP: std::sync::atomic::AtomicBool = std::sync::atomic::AtomicBool::new(false);
 /// logged destructions of (non-clone) elements so far in this case, and the one that panics
 pub static DROPS: AtomicU64 = AtomicU64::new(0);
